@@ -923,8 +923,13 @@ impl<'a> BenchContext<'a> {
             //
             // This ensures work external to the timed section does not affect
             // the timing of other threads.
+            //
+            // `pending_syncs` is the number of calls this sample still owes: 2
+            // before the start, 1 before the end, 0 afterwards.
+            let pending_syncs = std::cell::Cell::new(2u8);
             let sync_threads = |is_start: bool| {
                 sync_impl(barrier, is_start);
+                pending_syncs.set(if is_start { 1 } else { 0 });
 
                 // Monomorphize implementation to reduce code size.
                 #[inline(never)]
@@ -957,6 +962,22 @@ impl<'a> BenchContext<'a> {
                     }
                 }
             };
+
+            // If this thread unwinds out of the sample because the benchmarked
+            // function or the input generator panicked, still perform the
+            // synchronizations it has not reached yet. Otherwise the other
+            // threads would wait at the barrier forever instead of finishing
+            // the sample and letting the main thread report the panic.
+            let _sync_on_unwind = util::defer(|| {
+                if barrier.is_some() && std::thread::panicking() {
+                    if pending_syncs.get() >= 2 {
+                        sync_threads(true);
+                    }
+                    if pending_syncs.get() >= 1 {
+                        sync_threads(false);
+                    }
+                }
+            });
 
             // The following logic chooses how to efficiently sample the
             // benchmark function once and assigns `sample_start`/`sample_end`
